@@ -179,7 +179,16 @@ def _alias_rule(ctx, pkg):
             ok_suffix = False
             witness = f"charge {c:+d}: suffix {got!r}, convention {want!r}"
     suffix = suffix_parts[0] if len(suffix_parts) == 1 else ("tuple", tuple(suffix_parts))
-    ctx.check(phase == want_phase, "R6", "Species.alias:phase marker", (SP, st[0].line), "ice species are marked with the prefix 'G'", expected="'G' if self.is_surface else ''", found=show(phase))
+    # the phase marker, evaluated for an ice and a gas species (whatever the spelling: conditional expression, helper with a guard
+    # clause, "G" * flag, ("", "G")[flag])
+    surf = ("attr", SELF, "is_surface")
+    try:
+        marks = tuple(str(fold(phase, {surf: flag}, fl)) for flag in (True, False))
+    except FoldError as ex:
+        ctx.unrec("R6", "Species.alias:phase marker", (SP, st[0].line), f"the phase marker is not a function of is_surface alone: {ex}")
+        return out
+    want_phase = phase if marks == ("G", "") else want_phase
+    ctx.check(marks == ("G", ""), "R6", "Species.alias:phase marker", (SP, st[0].line), "ice species are marked with the prefix 'G'", expected="'G' if self.is_surface else ''", found=show(phase))
     ctx.check(ok_suffix, "R6", "Species.alias:charge suffix", (SP, st[0].line),
               "the charge is encoded injectively: 'I' * (charge + 1) for charge >= 0, 'M' * |charge| otherwise (X- and X-- get different identifiers)" if ok_suffix else
               f"the charge suffix is not the injective I/M run ({witness}): species differing only in charge share an identifier",
@@ -262,6 +271,18 @@ def fold(v, env, flow=None):
         return {"Lt": a < b, "LtE": a <= b, "Gt": a > b, "GtE": a >= b, "Eq": a == b, "NotEq": a != b}[v[1][0]]
     if k in ("ifexp", "phi"):        # phi: the two returns of an inlined helper `if c: return a` / `return b`
         return fold(v[2], env, flow) if fold(v[1], env, flow) else fold(v[3], env, flow)
+    if k == "sub" and v[1][0] in ("tuple", "list") and not any(e[0] == "star" for e in v[1][1]):
+        i = fold(v[2], env, flow)
+        if isinstance(i, (int, bool)) and -len(v[1][1]) <= int(i) < len(v[1][1]):
+            return fold(v[1][1][int(i)], env, flow)
+        raise FoldError(f"index out of range in {show(v)[:60]}")
+    if k == "bool":
+        r = None
+        for x in v[2]:
+            r = fold(x, env, flow)
+            if (v[1] == "And" and not r) or (v[1] == "Or" and r):
+                return r
+        return r
     if k == "call" and v[1] == ("global", "abs") and len(v[2]) == 1:
         return abs(fold(v[2][0], env, flow))
     if k == "call" and v[1] in (("global", "max"), ("global", "min")):
@@ -1468,3 +1489,17 @@ def _summary_display(alias="all_alias", nspec="len(net.species)"):
 BENIGN += [dict(_summary_display(), name="summary-as-dict-display")]
 MUTANTS += [dict(_summary_display(alias="[x.alias for x in net.species if not x.is_surface]"), name="summary-dict-display-alias-skips-ice", rules=["R4"]),
             dict(_summary_display(nspec="len(gas_species)"), name="summary-dict-display-counts-gas-only", rules=["R5"])]
+BENIGN += [
+    {"name": "phase-marker-by-multiplication", "file": SP, "old": '                "G" if self.is_surface else "",\n', "new": '                "G" * bool(self.is_surface),\n'},
+    {"name": "charge-suffix-by-table-lookup", "file": SP, "old": '                "I" * (self.charge + 1) if self.charge >= 0 else "M" * abs(self.charge),\n',
+     "new": '                ("M" * abs(self.charge), "I" * (self.charge + 1))[self.charge >= 0],\n'},
+]
+MUTANTS += [
+    {"name": "phase-marker-inverted", "file": SP, "old": '                "G" if self.is_surface else "",\n', "new": '                "G" * (not self.is_surface),\n', "rules": ["R6"]},
+]
+BENIGN += [
+    {"name": "species-sorted-in-place", "file": NETF, "old": _SORT_OLD, "new": "        speclist.sort(key=lambda x: (len(connection[x]), x))\n\n        return speclist\n"},
+]
+MUTANTS += [
+    {"name": "species-sorted-in-place-by-count-only", "file": NETF, "old": _SORT_OLD, "new": "        speclist.sort(key=lambda x: len(connection[x]))\n\n        return speclist\n", "rules": ["R9"]},
+]
